@@ -1303,7 +1303,7 @@ func (c *Compiler) writeNodeLC(node_ *node, v, fn string, depth int) error {
 			key := c.fmtP(node_.mapk, "path["+depths+"]", depth+1)
 			c.wl("if ", nv, ", ok := ", c.fmtV(node_, v), "[", key, "]; ok {")
 			c.wl("_ = ", nv)
-			if requireLenCheck(node_.mapv) {
+			if node_.mapv.typ == typeStruct {
 				c.wl("if len(path) < ", strconv.Itoa(depth+2), " { return nil }")
 			}
 			err := c.writeNodeLC(node_.mapv, nv, fn, depth+1)
@@ -1322,7 +1322,7 @@ func (c *Compiler) writeNodeLC(node_ *node, v, fn string, depth int) error {
 			c.wl(snippet)
 			c.wl(nv, " := ", c.fmtV(node_, v), "[", c.fmtP(node_.mapk, "k", depth+1), "]")
 			c.wl("_ = ", nv)
-			if requireLenCheck(node_.mapv) {
+			if node_.mapv.typ == typeStruct {
 				c.wl("if len(path) < ", strconv.Itoa(depth+2), " { return nil }")
 			}
 			err = c.writeNodeLC(node_.mapv, nv, fn, depth+1)
@@ -1360,7 +1360,7 @@ func (c *Compiler) writeNodeLC(node_ *node, v, fn string, depth int) error {
 				c.wl(nv, " := &", c.fmtVd(node_, v, depth), "[i]")
 			}
 			c.wl("_ = ", nv)
-			if requireLenCheck(node_.slct) {
+			if node_.slct.typ == typeStruct {
 				c.wl("if len(path) < ", strconv.Itoa(depth+2), " { return nil }")
 			}
 			err = c.writeNodeLC(node_.slct, nv, fn, depth+1)
